@@ -121,6 +121,8 @@ func runC14(c *Ctx) {
 	c.Rule("R7", "keys and values are copied out of native slices into buffers sized by the same slice", 1)
 	nativeSliceCopies(c, "R7", []string{"storage/rocks"})
 	freshWriteBatches(c, "R4", []string{"storage/rocks"})
+	readerHandsOutFreshPairs(c, "R4")
+	readerErrOnlyWithEmptyChunk(c, "R4")
 }
 
 func isPrefixDerived(t *Term) bool {
